@@ -77,7 +77,7 @@ type Options struct {
 	Workers    int        // goroutines; 0 = GOMAXPROCS
 	Deadline   time.Time  // zero = none; on expiry exploration stops, Exhaustive=false
 	NewLocal   func() any // per-worker scratch
-	MaxFails   int        // stop collecting after this many violating vectors (default 200)
+	MaxFails   int        // stop collecting after this many violating vectors (default 4000; at most 3 per signature are kept)
 	SplitDepth int        // prefixes up to this length are handed to other workers (default 2)
 }
 
@@ -108,8 +108,10 @@ func Explore(s Scenario, o Options) *Result {
 		o.Workers = runtime.GOMAXPROCS(0)
 	}
 	if o.MaxFails == 0 {
-		o.MaxFails = 200
+		o.MaxFails = 4000
 	}
+	const perSig = 3
+	sigCount := map[string]int{}
 	if o.SplitDepth == 0 {
 		o.SplitDepth = 2
 	}
@@ -178,7 +180,15 @@ func Explore(s Scenario, o Options) *Result {
 				if len(ctx.Fails) > 0 {
 					v := Violation{Choices: append([]int(nil), ctx.Choices...), Fails: append([]Failure(nil), ctx.Fails...)}
 					mu.Lock()
-					if len(res.Violations) < o.MaxFails {
+					// the cap is per signature: many violations of one kind (a recorded finding, say) must not hide another kind
+					keep := false
+					for _, f := range v.Fails {
+						if sigCount[f.Sig] < perSig {
+							keep = true
+						}
+						sigCount[f.Sig]++
+					}
+					if keep && len(res.Violations) < o.MaxFails {
 						res.Violations = append(res.Violations, v)
 					}
 					mu.Unlock()
